@@ -37,7 +37,7 @@ MAX_STEPS = 1500
 
 
 def cases(tier, seed):
-    n = 320 if tier == "quick" else 5000
+    n = 400 if tier == "quick" else 5000
     return [{"kind": "path", "seed": seed, "i": i} for i in range(n)]
 
 
@@ -400,7 +400,7 @@ def make_case(seed, i):
     args["min_features"] = int(rng.integers(-1, d + 2))
     rk = rng.random()
     args["keep_threshold"] = float(rng.uniform(0, 1)) if rk < 0.75 else float([-0.5, 1.5, 0.0, 1.0][int(rng.integers(0, 4))])
-    if rng.random() < 0.15:
+    if rng.random() < 0.3:
         # an under-trained initial fit followed by a strong penalty: the score keeps rising while the first features are
         # already being dropped - the steps in which "best score with all features" and "score reached" come apart
         params["alpha"] = float([1.0, 5.0, 20.0, 50.0][int(rng.integers(0, 4))])
@@ -408,7 +408,7 @@ def make_case(seed, i):
         params["learning_rate"] = float(10 ** rng.uniform(-3, -2))
         params["batch_size"] = None
         args["alpha_multiplier"] = float([1.5, 2.0][int(rng.integers(0, 2))])
-        args["keep_threshold"] = float(rng.uniform(0.85, 1.0))
+        args["keep_threshold"] = float(rng.uniform(0.9, 1.0))
         args["min_features"] = int(rng.integers(1, 3))
         if pre is None:
             # two informative coordinates (tight blobs) and noise columns: the noise goes first, while the score still rises
